@@ -81,7 +81,9 @@ func run(prop, repo, verif, tier string, seed int) (code int) {
 	loads := []loadOpts{{Dir: repo}}
 	if tier == "thorough" {
 		// the build-tag/arch and test variants of the program must give the same verdict
-		loads = append(loads, loadOpts{Dir: repo, GOARCH: "386"}, loadOpts{Dir: repo, Tests: true})
+		// (test variants are not loaded: _test.go files are out of scope by definition, and with
+		// them every package exists twice, which breaks object identity across packages)
+		loads = append(loads, loadOpts{Dir: repo, GOARCH: "386"}, loadOpts{Dir: repo, GOARCH: "arm64"})
 	}
 	var first *Report
 	var variants []string
